@@ -164,8 +164,8 @@ template <class T>
 static FixedArray2D<IMATH_NAMESPACE::Color4<T> >
 Color4Array_mulArrayT(const FixedArray2D<IMATH_NAMESPACE::Color4<T> > &va, const FixedArray2D<T> &vb)
 { 
-    PY_IMATH_LEAVE_PYTHON;
     IMATH_NAMESPACE::Vec2<size_t> len = va.match_dimension(vb);
+    PY_IMATH_LEAVE_PYTHON;
     FixedArray2D<IMATH_NAMESPACE::Color4<T> > f(len); 
     for (size_t j = 0; j < len.y; ++j)
         for (size_t i = 0; i < len.x; ++i)
@@ -189,8 +189,8 @@ template <class T>
 static const FixedArray2D<IMATH_NAMESPACE::Color4<T> > &
 Color4Array_imulArrayT(FixedArray2D<IMATH_NAMESPACE::Color4<T> > &va, const FixedArray2D<T> &vb)
 { 
-    PY_IMATH_LEAVE_PYTHON;
     IMATH_NAMESPACE::Vec2<size_t> len = va.match_dimension(vb);
+    PY_IMATH_LEAVE_PYTHON;
     for (size_t j = 0; j < len.y; ++j)
         for (size_t i = 0; i < len.x; ++i) 
             va(i,j) *= vb(i,j); 
@@ -214,8 +214,8 @@ template <class T>
 static FixedArray2D<IMATH_NAMESPACE::Color4<T> >
 Color4Array_divArrayT(const FixedArray2D<IMATH_NAMESPACE::Color4<T> > &va, const FixedArray2D<T> &vb)
 { 
-    PY_IMATH_LEAVE_PYTHON;
     IMATH_NAMESPACE::Vec2<size_t> len = va.match_dimension(vb);
+    PY_IMATH_LEAVE_PYTHON;
     FixedArray2D<IMATH_NAMESPACE::Color4<T> > f(len); 
     for (size_t j = 0; j < len.y; ++j) 
         for (size_t i = 0; i < len.x; ++i) 
@@ -239,8 +239,8 @@ template <class T>
 static const FixedArray2D<IMATH_NAMESPACE::Color4<T> > &
 Color4Array_idivArrayT(FixedArray2D<IMATH_NAMESPACE::Color4<T> > &va, const FixedArray2D<T> &vb)
 { 
-    PY_IMATH_LEAVE_PYTHON;
     IMATH_NAMESPACE::Vec2<size_t> len = va.match_dimension(vb);
+    PY_IMATH_LEAVE_PYTHON;
     for (size_t j = 0; j < len.y; ++j) 
         for (size_t i = 0; i < len.x; ++i) 
             va(i,j) /= vb(i,j); 
@@ -251,8 +251,8 @@ template <class T>
 static FixedArray2D<IMATH_NAMESPACE::Color4<T> >
 Color4Array_add(const FixedArray2D<IMATH_NAMESPACE::Color4<T> > &va, const FixedArray2D<IMATH_NAMESPACE::Color4<T> > &vb)
 { 
-    PY_IMATH_LEAVE_PYTHON;
     IMATH_NAMESPACE::Vec2<size_t> len = va.match_dimension(vb);
+    PY_IMATH_LEAVE_PYTHON;
     FixedArray2D<IMATH_NAMESPACE::Color4<T> > f(len); 
     for (size_t j = 0; j < len.y; ++j) 
         for (size_t i = 0; i < len.x; ++i) 
@@ -277,8 +277,8 @@ template <class T>
 static FixedArray2D<IMATH_NAMESPACE::Color4<T> >
 Color4Array_sub(const FixedArray2D<IMATH_NAMESPACE::Color4<T> > &va, const FixedArray2D<IMATH_NAMESPACE::Color4<T> > &vb)
 { 
-    PY_IMATH_LEAVE_PYTHON;
     IMATH_NAMESPACE::Vec2<size_t> len = va.match_dimension(vb);
+    PY_IMATH_LEAVE_PYTHON;
     FixedArray2D<IMATH_NAMESPACE::Color4<T> > f(len); 
     for (size_t j = 0; j < len.y; ++j) 
         for (size_t i = 0; i < len.x; ++i) 
@@ -316,8 +316,8 @@ template <class T>
 static FixedArray2D<IMATH_NAMESPACE::Color4<T> >
 Color4Array_mul(const FixedArray2D<IMATH_NAMESPACE::Color4<T> > &va, const FixedArray2D<IMATH_NAMESPACE::Color4<T> > &vb)
 { 
-    PY_IMATH_LEAVE_PYTHON;
     IMATH_NAMESPACE::Vec2<size_t> len = va.match_dimension(vb);
+    PY_IMATH_LEAVE_PYTHON;
     FixedArray2D<IMATH_NAMESPACE::Color4<T> > f(len); 
     for (size_t j = 0; j < len.y; ++j) 
         for (size_t i = 0; i < len.x; ++i) 
@@ -342,8 +342,8 @@ template <class T>
 static FixedArray2D<IMATH_NAMESPACE::Color4<T> >
 Color4Array_div(const FixedArray2D<IMATH_NAMESPACE::Color4<T> > &va, const FixedArray2D<IMATH_NAMESPACE::Color4<T> > &vb)
 { 
-    PY_IMATH_LEAVE_PYTHON;
     IMATH_NAMESPACE::Vec2<size_t> len = va.match_dimension(vb);
+    PY_IMATH_LEAVE_PYTHON;
     FixedArray2D<IMATH_NAMESPACE::Color4<T> > f(len); 
     for (size_t j = 0; j < len.y; ++j) 
         for (size_t i = 0; i < len.x; ++i) 
@@ -381,8 +381,8 @@ template <class T>
 static const FixedArray2D<IMATH_NAMESPACE::Color4<T> > &
 Color4Array_iadd(FixedArray2D<IMATH_NAMESPACE::Color4<T> > &va, const FixedArray2D<IMATH_NAMESPACE::Color4<T> > &vb)
 { 
-    PY_IMATH_LEAVE_PYTHON;
     IMATH_NAMESPACE::Vec2<size_t> len = va.match_dimension(vb);
+    PY_IMATH_LEAVE_PYTHON;
     for (size_t j = 0; j < len.y; ++j) 
         for (size_t i = 0; i < len.x; ++i) 
             va(i,j) += vb(i,j); 
@@ -405,8 +405,8 @@ template <class T>
 static const FixedArray2D<IMATH_NAMESPACE::Color4<T> > &
 Color4Array_isub(FixedArray2D<IMATH_NAMESPACE::Color4<T> > &va, const FixedArray2D<IMATH_NAMESPACE::Color4<T> > &vb)
 { 
-    PY_IMATH_LEAVE_PYTHON;
     IMATH_NAMESPACE::Vec2<size_t> len = va.match_dimension(vb);
+    PY_IMATH_LEAVE_PYTHON;
     for (size_t j = 0; j < len.y; ++j) 
         for (size_t i = 0; i < len.x; ++i) 
             va(i,j) -= vb(i,j); 
@@ -429,8 +429,8 @@ template <class T>
 static const FixedArray2D<IMATH_NAMESPACE::Color4<T> > &
 Color4Array_imul(FixedArray2D<IMATH_NAMESPACE::Color4<T> > &va, const FixedArray2D<IMATH_NAMESPACE::Color4<T> > &vb)
 { 
-    PY_IMATH_LEAVE_PYTHON;
     IMATH_NAMESPACE::Vec2<size_t> len = va.match_dimension(vb);
+    PY_IMATH_LEAVE_PYTHON;
     for (size_t j = 0; j < len.y; ++j) 
         for (size_t i = 0; i < len.x; ++i) 
             va(i,j) *= vb(i,j); 
@@ -453,8 +453,8 @@ template <class T>
 static const FixedArray2D<IMATH_NAMESPACE::Color4<T> > &
 Color4Array_idiv(FixedArray2D<IMATH_NAMESPACE::Color4<T> > &va, const FixedArray2D<IMATH_NAMESPACE::Color4<T> > &vb)
 { 
-    PY_IMATH_LEAVE_PYTHON;
     IMATH_NAMESPACE::Vec2<size_t> len = va.match_dimension(vb);
+    PY_IMATH_LEAVE_PYTHON;
     for (size_t j = 0; j < len.y; ++j) 
         for (size_t i = 0; i < len.x; ++i) 
             va(i,j) /= vb(i,j); 
